@@ -815,7 +815,12 @@ def sym_in(a, b, negate):
     return r
 
 
+_MISSING = object()
+
+
 def _sym_in(a, b):
+    if isinstance(b, dict) and E.CURRENT is not None and _side(b):
+        return dict_lookup(b, a, _MISSING, True) is not _MISSING
     if isinstance(b, SymStr):
         if not isinstance(a, (str, SymStr)):
             raise TypeError("'in <string>' requires string as left operand, not %s" % _tname(a))
@@ -1089,9 +1094,27 @@ PY_MODELS[_random.randint.__func__] = m_randint
 ALWAYS[_random.random] = m_random
 
 
+def _dict_ctor(a, kw):
+    """dict(pairs) where some keys are symbolic: concrete keys go into a real dict, symbolic ones into its side table,
+    in order, so that a later pair with an equal key wins exactly as in a real dict"""
+    if len(a) != 1 or isinstance(a[0], dict):
+        return dict(*a, **kw)
+    pairs = [tuple(p) for p in a[0]]
+    if not any(symbolic(k) for k, _ in pairs):
+        return dict(pairs, **kw)
+    d = {}
+    for k, v in pairs:
+        sym_setitem(d, k, v)
+    for k, v in kw.items():
+        sym_setitem(d, k, v)
+    return d
+
+
 def sym_call(f, *a, **kw):
     if E.CURRENT is None:
         return f(*a, **kw)
+    if f is dict and a:
+        return _dict_ctor(a, kw)
     tf = type(f)
     func = None
     if tf is types.MethodType:
